@@ -85,6 +85,11 @@ MUTANTS = [
     ("seeded-blpop-zero-timeout-defaulted", "PATCH", "/verif/seeded/C12/blpop-zero-timeout-defaulted/patch.diff"),
     ("seeded-bitpos-whole-range-short-form", "PATCH", "/verif/seeded/C12/bitpos-whole-range-short-form/patch.diff"),
     ("zcount-inclusive-to-exclusive-when-equal", R, fn("ZCountCtx", "node.ZCount(ctx, key, strconv.FormatInt(start, 10),", "node.ZCount(ctx, key, \"(\"+strconv.FormatInt(start-1, 10),")),
+    # reply shapes miniredis never produces / black-hole outage (eighth round)
+    ("seeded-scan-empty-page-resets-cursor", "PATCH", "/verif/seeded/C12/scan-empty-page-resets-cursor/patch.diff"),
+    ("seeded-deadline-errors-never-trip-breaker", "PATCH", "/verif/seeded/C12/deadline-errors-never-trip-breaker/patch.diff"),
+    ("hdel-eq1", R, "val = v >= 1\n\t\treturn nil\n\t}, acceptable)\n\n\treturn\n}\n\n// HExists", "val = v == 1\n\t\treturn nil\n\t}, acceptable)\n\n\treturn\n}\n\n// HExists"),
+    ("tostrings-nil-element-dropped", R, "ret := make([]string, len(values))\n\tfor i, v := range values {\n\t\tif v == nil {\n\t\t\tret[i] = \"\"", "ret := make([]string, len(values))\n\tfor i, v := range values {\n\t\tif v == nil {\n\t\t\tret = ret[:len(ret)-1]"),
     # kv
     ("kv-hdel-other-key", KV, "return node.HDelCtx(ctx, key, field)", "return node.HDelCtx(ctx, field, key)"),
     ("kv-get-wrong-node", KV, fn("GetCtx", "node, err := s.getRedis(key)", "node, err := s.getRedis(key + \"x\")")),
